@@ -46,6 +46,98 @@ theorem write_tie (inp : Nat → Nat) (cells : List Nat) (segsize : Nat) (nowNs 
     wordStores_eq, Nat.zero_add, List.cons_append, List.nil_append]
   rw [genFinish_int, genStart_int]
   clear hgi hgn
-  split_ifs <;> simp_all [ordering] <;> omega
+  -- the arithmetic: parity test by `& 1`, first store by `wrapping_add` or `| 1`, roll-over by `== 0`
+  try simp only [lor_one]
+  split_ifs <;> simp_all [ordering, evStore, evLoad, evFence] <;> omega
+
+/-! ### the reader -/
+
+/-- frame of `ShmReader::snapshot` -/
+def sfr : Frame := ⟨"reader", "ShmReader", "Result<&ClockErrorBound,ShmError>"⟩
+
+/-- the positions at which an attempt of the retry loop starts: 2, 2 + (N+1), 2 + 2(N+1), … -/
+def AttemptPos (pos : Nat) : Prop := ∃ j, pos = 2 + (SL.N + 1) * j
+
+theorem AttemptPos.next {pos : Nat} (h : AttemptPos pos) : AttemptPos (pos + SL.N + 1) := by
+  obtain ⟨j, rfl⟩ := h
+  exact ⟨j + 1, by simp only [SL.N]; omega⟩
+
+theorem loadCard_cell {pos : Nat} (h : AttemptPos pos) (c : Nat) (hc : c < SL.N) :
+    loadCard (pos + c) = 18446744073709551616 := by
+  obtain ⟨j, rfl⟩ := h
+  have hN : SL.N = 7 := rfl
+  simp only [loadCard, hN] at hc ⊢
+  rw [if_neg]
+  omega
+
+theorem loadCard_gen2 {pos : Nat} (h : AttemptPos pos) : loadCard (pos + SL.N) = 65536 := by
+  obtain ⟨j, rfl⟩ := h
+  have hN : SL.N = 7 := rfl
+  simp only [loadCard, hN]
+  rw [if_pos]
+  omega
+
+theorem typedInp_gen2 (inp : Nat → Nat) {pos : Nat} (h : AttemptPos pos) :
+    ((inp (pos + SL.N) : Nat) : Int) % 65536 = ((typedInp inp (pos + SL.N) : Nat) : Int) := by
+  unfold typedInp
+  rw [loadCard_gen2 h]
+  omega
+
+theorem typedInp_0 (inp : Nat → Nat) : ((inp 0 : Nat) : Int) % 65536 = ((typedInp inp 0 : Nat) : Int) := by
+  simp [typedInp, loadCard]
+theorem typedInp_1 (inp : Nat → Nat) : ((inp 1 : Nat) : Int) % 65536 = ((typedInp inp 1 : Nat) : Int) := by
+  simp [typedInp, loadCard]
+
+theorem readWords_raw (inp : Nat → Nat) : ∀ k c pos,
+    readWords (rawInp inp) k c pos
+    = some ((List.range k).map fun i => Value.int .u64 (((inp (pos + i) : Nat) : Int) % 18446744073709551616)) := by
+  intro k
+  induction k with
+  | zero => intro c pos; simp [readWords]
+  | succ k ih =>
+    intro c pos
+    simp only [readWords, ih, rawInp, asU64, List.range_succ_eq_map, List.map_cons, List.map_map]
+    simp [Function.comp_def, Nat.add_assoc, Nat.add_comm 1]
+
+/-- the volatile copy of the record reads the words `attemptCells (typedInp inp) pos` -/
+theorem readWords_attempt (inp : Nat → Nat) {pos : Nat} (h : AttemptPos pos) :
+    readWords (rawInp inp) SL.N 0 pos
+    = some ((SL.attemptCells (typedInp inp) pos).map fun (w : Nat) => Value.int .u64 (w : Int)) := by
+  rw [readWords_raw, SL.attemptCells, List.map_map]
+  congr 1
+  apply List.map_congr_left
+  intro i hi
+  have hi' : i < SL.N := List.mem_range.mp hi
+  simp only [Function.comp, typedInp, loadCard_cell h i hi']
+  congr 1
+
+theorem wordLoads_range (f : Nat → Nat) : ∀ k c,
+    wordLoads c ((List.range k).map fun i => Value.int .u64 ((f i : Nat) : Int))
+    = ((List.range k).map fun i => SL.Acc.load (.cell (c + i)) .relaxed (f i)).map accValue := by
+  intro k
+  induction k generalizing f with
+  | zero => intro c; simp [wordLoads]
+  | succ k ih =>
+    intro c
+    simp only [List.range_succ_eq_map, List.map_cons, List.map_map, wordLoads]
+    have := ih (fun i => f (i + 1)) (c + 1)
+    simp only [Function.comp_def] at this ⊢
+    rw [this]
+    simp [accValue, locValue, locTy, ordValue, Function.comp_def, Nat.add_assoc, Nat.add_comm 1]
+
+/-- the load events of that copy are the model's cell loads -/
+theorem wordLoads_attempt (inp : Nat → Nat) (pos : Nat) :
+    wordLoads 0 ((SL.attemptCells inp pos).map fun (w : Nat) => Value.int .u64 (w : Int))
+    = ((List.range SL.N).map fun c => SL.Acc.load (.cell c) .relaxed (inp (pos + c))).map accValue := by
+  have := wordLoads_range (fun c => inp (pos + c)) SL.N 0
+  simpa [SL.attemptCells, List.map_map, Function.comp_def] using this
+
+/-- the local variables at the head of the retry loop: the remaining budget (an `i32` once it has been
+    decremented, an untyped literal before), the generation to confirm, and the reader -/
+def LS (t : IntTy) (k g1 v cg : Nat) (cache : List Nat) (lg : List Value) (pos : Nat) : St :=
+  { env := [("retries", .int t k), ("first_gen", .int .u16 g1), ("generation", refA16 "generation"),
+            ("version", .int .u16 v), ("version", refA16 "version"), ("self", readerValue cg cache)],
+    log := lg, pos := pos }
+
 
 end ClockBound.Rs.SeqlockProof
